@@ -87,7 +87,15 @@ def check_outcome(ctx, ref, out, witness, config):
         ctx.violation("stuck:%s" % config, witness, out[1])
         return False
     if ref[0] == "crash":
-        if out[0] != "raised" or not isinstance(out[1], Crash):
+        surfaced = out[0] == "raised" and isinstance(out[1], Crash)
+        if out[0] == "raised" and not surfaced and isinstance(out[1], RuntimeError) and \
+                isinstance(out[1].__cause__ or out[1].__context__, Crash) and \
+                isinstance(out[1].__cause__ or out[1].__context__, StopIteration):
+            # StopIteration cannot travel through generators and futures as it is (PEP 479): a RuntimeError
+            # chained to it is that exception surfacing
+            surfaced = True
+            ctx.count("stop_iteration_surfaced_as_chained_runtime_error:" + config)
+        if not surfaced:
             got = "normal result" if out[0] == "ok" else type(out[1]).__name__
             ctx.violation("unexpected-exception-lost:%s" % config, witness,
                           "resolver raised an unexpected exception, outcome was %s" % got)
@@ -266,13 +274,17 @@ def run(ctx):
             # IndexError / KeyError are what the library's own control flow catches: every other case
             forced = DISTINCT_CRASH_CLASSES[1 + (slot // 2) % 2] if slot % 2 == 0 else \
                 DISTINCT_CRASH_CLASSES[(slot // 2) % len(DISTINCT_CRASH_CLASSES)]
+            from ..gen.world import library_crash_class, library_crash_class_2, library_crash_class_n
+
             if slot % 5 == 3:
-                from ..gen.world import library_crash_class, library_crash_class_2
-
-                from ..gen.world import library_crash_class_n
-
-                forced = [library_crash_class, library_crash_class_2, lambda: library_crash_class_n(2),
-                          lambda: library_crash_class_n(3)][(ctx.shard + ci // 2) % 4]()
+                forced = library_crash_class() if (slot // 5) % 2 == 0 else library_crash_class_2()
+            elif slot % 5 == 0:
+                # the two library errors that the entry points answer with an error response when they come out of
+                # operation selection / variable coercion
+                forced = library_crash_class_n(2 + (slot // 5) % 2)
+            elif slot % 5 == 1:
+                # StopIteration cannot travel through a future as it is
+                forced = [c for c in DISTINCT_CRASH_CLASSES if c.__name__ == "CrashStopIteration"][0]
             case.sync.crash_class = case.asyn.crash_class = forced
             ctx.count("crash_class:" + forced.__name__)
         try:
@@ -295,6 +307,8 @@ def run(ctx):
                 continue
             ctx.count("requests")
             ctx.count("reference:" + ref[0])
+            if ref[0] == "crash":
+                ctx.count("requests_crashing_with:" + getattr(getattr(case.sync, "crash_class", None), "__name__", "any"))
             base = {"schema_sdl": case.sdl, "world_seed": case.world.seed, "document": text, "variables": variables}
             for config in CONFIGS:
                 run_config(ctx, rng, case, config, text, op, variables, ref, base, max_exh, n_samples)
